@@ -876,7 +876,7 @@ func init() {
 			if t.IsConst() {
 				str = StrV{S: signed(t.C, 64).Text(base)}
 			} else if base == 10 {
-				str = w.ufString(s, "decs", t).(StrV)
+				str = w.decString(s, t, true).(StrV)
 			} else {
 				panic(execErr{"AppendInt symbolic non-decimal"})
 			}
@@ -1059,12 +1059,64 @@ func randIntn(bits int) intrinsic {
 	}
 }
 
-// decString renders a symbolic integer as an injective uninterpreted token:
-// a 20-byte string of symbolic bytes uf_dec(n)[i]. Equal numbers give equal
-// strings and different numbers different strings (asserted), nothing else is
-// known about the bytes.
+// decString renders a symbolic integer. When the path condition confines it to [-999,999]
+// the decimal digits are computed exactly (case split on sign and digit count). Otherwise
+// it is an injective uninterpreted token: 8 symbolic bytes uf_dec(n)[i] over the value
+// widened to 64 bits, so equal numbers give equal strings whatever their Go type and
+// different numbers different strings; nothing else is known about the bytes.
 func (w *W) decString(s *State, t *Term, sg bool) Value {
-	return w.ufString(s, "dec", t)
+	t64 := t
+	if t.S.W < 64 {
+		t64 = Resize(t, 64, sg)
+	}
+	if !sg && t.S.W == 64 {
+		// an unsigned value >= 2^63 is not the rendering of any int64
+		if r := w.feasible(s, BvCmp("bvslt", t64, ConstI(0, 64))); r.Status != "unsat" {
+			lo := w.ufString(s, "dec", t64).(StrV)
+			hi := w.ufString(s, "decu", t64).(StrV)
+			neg := BvCmp("bvslt", t64, ConstI(0, 64))
+			bs := make([]*Term, len(lo.Sym))
+			for i := range bs {
+				bs[i] = Ite(neg, hi.Sym[i], lo.Sym[i])
+			}
+			return StrV{Sym: bs}
+		}
+	}
+	out := Or(BvCmp("bvslt", t64, ConstI(-999, 64)), BvCmp("bvslt", ConstI(999, 64), t64))
+	if r := w.feasible(s, out); r.Status != "unsat" {
+		return w.ufString(s, "dec", t64)
+	}
+	neg := w.decide(s, BvCmp("bvslt", t64, ConstI(0, 64)))
+	m := t64
+	if neg {
+		m = BvNeg(t64)
+	}
+	nd := 1
+	if w.decide(s, BvCmp("bvslt", ConstI(9, 64), m)) {
+		nd = 2
+		if w.decide(s, BvCmp("bvslt", ConstI(99, 64), m)) {
+			nd = 3
+		}
+	}
+	w.e.noteModel("decimal:exact-digits(|n|<=999)")
+	m16 := Extract(m, 15, 0)
+	digit := func(div uint64) *Term {
+		d := BvBin("bvurem", BvBin("bvudiv", m16, ConstU(div, 16)), ConstU(10, 16))
+		return BvBin("bvadd", Extract(d, 7, 0), ConstU('0', 8))
+	}
+	var bs []*Term
+	if nd >= 3 {
+		bs = append(bs, digit(100))
+	}
+	if nd >= 2 {
+		bs = append(bs, digit(10))
+	}
+	bs = append(bs, digit(1))
+	res := StrV{Sym: bs}
+	if neg {
+		return strConcat(StrV{S: "-"}, res)
+	}
+	return res
 }
 
 func (w *W) ufString(s *State, fn string, t *Term) Value {
@@ -1196,11 +1248,7 @@ func (w *W) fmtArg(s *State, a Value, verb byte) StrV {
 			return StrV{S: "false"}
 		}
 		if v.S.K == KBV {
-			k := "decu"
-			if isSigned(iv.T) {
-				k = "decs"
-			}
-			return w.ufString(s, k, v).(StrV)
+			return w.decString(s, v, isSigned(iv.T)).(StrV)
 		}
 		return w.ufString(s, "fmtfloat", v).(StrV)
 	}
